@@ -54,7 +54,7 @@ def env():
     return _ENV
 
 
-KEYS = ["a", "b", "c", "d"]
+KEYS = ["", "b", "c", "d"]  # the empty string is a legal (falsy) key / self-keyed item
 
 
 class Universe:
@@ -70,11 +70,11 @@ class Universe:
         if n == "self":
             return KEYS[ki]
         if n == "selfint":
-            return ki + 10  # self-keyed ints (subscripts stay indices)
+            return ki * 10  # self-keyed ints incl. falsy 0 (subscripts stay indices)
         if n == "tuple":
             return (KEYS[ki], p)
         if n == "tupleint":
-            return (ki + 10, p)
+            return (ki * 10, p)
         if n == "spec":
             return env()["It"](KEYS[ki], v=p)
         raise AssertionError(n)
@@ -88,7 +88,7 @@ class Universe:
         return self.key(enc[0])
 
     def key(self, ki):
-        return ki + 10 if self.name in ("selfint", "tupleint") else KEYS[ki]
+        return ki * 10 if self.name in ("selfint", "tupleint") else KEYS[ki]
 
     def model_key(self, item):
         n = self.name
@@ -124,11 +124,15 @@ class Universe:
         if n == "tuple":
             return [("badkey", (99, 0)), ("baditem", ["a", 0])]
         if n == "tupleint":
-            return [("badkey", ("zz", 0)), ("baditem", [10, 0])]
+            return [("badkey", ("zz", 0)), ("baditem", [0, 0])]
         return [("baditem", "zz")]  # str where It expected (hashable: key is itself, a str)
 
 
 def _first(t):
+    # a key function is only defined on items; like the built-in default it
+    # signals "not an item" with TypeError (which the containers handle)
+    if not isinstance(t, (tuple, list)):
+        raise TypeError("not an item")
     return t[0]
 
 
